@@ -11,6 +11,7 @@ Additional ops:
   ["create", path, what, name, type, extra, fault]      fault = null | [stage, errclass, variant]
   ["create_mtag", path, name, type, pos, ext]           pos/ext = null | {"ref": path} | {"data": fault}
   ["append_dim", path, kind, withData, fault]
+  ["extend", path, cname, [key, …]]                     LinkContainer.extend (append = extend of one item)
   ["dump12"]                                            dump incl. dimension descriptors
 -/
 namespace Driver.C12
@@ -112,6 +113,22 @@ def step (g : Graph) (j : Json) : Graph × Json :=
     match parsePath pj, parseFault fj with
     | some p, .ok f => reached (appendDimW g p kd (jBool wd) f)
     | _, _ => (g, bad "args")
+  | [.str "extend", pj, .str cname, ks] =>
+    match parsePath pj with
+    | none => (g, bad "path")
+    | some p =>
+      match openCont g p cname, (jArr ks).toList.mapM (parseKey g) with
+      | some c, some keys => reached (contExtendW g c keys)
+      | none, _ => (g, bad "container")
+      | _, none => (g, bad "key")
+  | [.str "append", pj, .str cname, kj] =>       -- append(x) through the checks / write of extend([x])
+    match parsePath pj with
+    | none => (g, bad "path")
+    | some p =>
+      match openCont g p cname, parseKey g kj with
+      | some c, some key => reached (contExtendW g c [key])
+      | none, _ => (g, bad "container")
+      | _, none => (g, bad "key")
   | [.str "dump12"] => (g, ok (dump12 g))
   | [.str "dump"] => (g, ok (dump12 g))      -- the shared generator's dump: dimension descriptors visible here
   | _ => Driver.Store.step g j
